@@ -17,6 +17,11 @@ sys.path.insert(0, HERE)
 
 CHECKS = {
     "C01": "checks.c01",
+    "C06": "checks.c06",
+    "C08": "checks.c08",
+    "C10": "checks.c10",
+    "C12": "checks.c12",
+    "C13": "checks.c13",
 }
 
 
@@ -29,6 +34,9 @@ def main(argv):
         from sim import selftest
 
         return selftest.main(argv[1:])
+    if len(argv) >= 2 and argv[0] == "--module":  # development: run a check module that is not registered yet
+        CHECKS[argv[1]] = argv[1]
+        argv = argv[1:]
     if len(argv) < 1 or argv[0] not in CHECKS:
         print(__doc__)
         return 2
